@@ -23,7 +23,7 @@ PROPS = {
                 explanation="Inductive invariant used == sum(key_costs) and used <= max_cost after admission, decided structurally on the MIR of "
                             "SampledLFU and impl_policy!::add (both flavours): writer inventory, symbolic effect balance per path, guard dominance "
                             "(oversize test, key-absent test), typestate of `room` (fresh and >= 0 at every admission), value of room_left, capacity plumbing."),
-    "C07": dict(fn=props_policy.check_C07, floor={"sync": 30, "async": 30},
+    "C07": dict(fn=props_policy.check_C07_all, floor={"sync": 30, "async": 30},
                 explanation="The TinyLFU / sampled-LFU rule written as path predicates over impl_policy!::add, the min-search closure and "
                             "SampledLFU::fill_sample (both flavours): fast path when room >= 0, eviction only while fresh room < 0, strict `<` rejection, "
                             "victim = sampled minimum, sample refilled per round, five samples."),
